@@ -5,11 +5,11 @@
    the relativization choices). *)
 From DV Require Import Base.Prelude Model.NameM Model.TokM Model.RdTextM.
 From DV Require Import Proofs.NameValid Proofs.NameText Proofs.TokEsc Proofs.TokTxt Proofs.TokWords
-     Proofs.TokDec Proofs.TokHex Proofs.TokShape Proofs.TokGeneric Proofs.TokUtf8 Proofs.RdTextName Proofs.RdTextAddr.
+     Proofs.TokDec Proofs.TokHex Proofs.TokShape Proofs.TokGeneric Proofs.TokUtf8 Proofs.RdTextName Proofs.RdTextAddr Proofs.RdTextBitmap Proofs.RdTextTypes.
 Open Scope Z_scope.
 
 Definition is_rest (f : tfield) : bool :=
-  match f with FHexRest | FB64Rest _ | FTxtRest => true | _ => false end.
+  match f with FHexRest | FB64Rest _ | FTxtRest | FBitmap => true | _ => false end.
 
 (* non-empty; the fields that read the rest of the line come last *)
 Fixpoint schema_wf (fs : list tfield) : Prop :=
@@ -34,6 +34,7 @@ Definition val_ok (f : tfield) (v : tval) : Prop :=
   | FHexTok, VBytes b => all_bytes b = true /\ zlen b <= 255
   | FAlg, VInt z => 0 <= z <= 255
   | FTag, VBytes b => b <> [] /\ zlen b <= 255 /\ forallb is_alnum b = true
+  | FBitmap, VWindows ws => canon_from (-1) ws /\ no_type0 ws
   | _, _ => False
   end.
 
@@ -172,7 +173,7 @@ Lemma field_ok sty c f v ftext v' R q bl :
         (is_rest f = true -> exists te, ungot st_end = Some te /\ is_eol_or_eof te = true).
 Proof.
   intros (Hhs & Hbs & HO) Hv Hp He Hbl HR1 HR2.
-  destruct f as [maxv| |tokmax ctormax ne| | |sc| |v6| | |]; destruct v as [z|b|n|l]; cbn [val_ok] in Hv; try contradiction;
+  destruct f as [maxv| |tokmax ctormax ne| | |sc| |v6| | | |]; destruct v as [z|b|n|l|ws]; cbn [val_ok] in Hv; try contradiction;
     cbn [print_field] in Hp; cbn [expect] in He; cbn [is_rest] in HR1, HR2.
   - (* FDec *)
     inversion Hp; subst ftext. inversion He; subst v'. specialize (HR1 eq_refl).
@@ -349,22 +350,88 @@ Proof.
       rewrite utf8_ascii by exact Ha. reflexivity.
     + cbn [ctor_field]. replace (zlen b >? 255) with false by lia. rewrite Hal.
       destruct b; [congruence|reflexivity].
+  - (* FBitmap *)
+    destruct Hv as (Hcan & H0). inversion He; subst v'. specialize (HR2 eq_refl).
+    destruct (bitmap_text_shape ws (-1) Hcan ltac:(lia)) as (names & Eb & Fn).
+    rewrite Eb in Hp. inversion Hp; subst ftext.
+    assert (Hns : Forall (fun n => n <> [] /\ forallb safe n = true) names).
+    { clear - Fn. induction Fn as [|t n ts ns (A & B & _) _ IH]; constructor; auto. }
+    pose proof (bitmap_types_nonzero ws Hcan H0) as Hnz.
+    pose proof (token_types _ _ Fn Hnz) as Htt.
+    pose proof (bitmap_text_roundtrip ws Hcan H0) as Hrt.
+    destruct names as [|n1 names'].
+    + (* no types: the next token is the end of the line *)
+      cbn [spaced flat_map app].
+      destruct (get0_end_q_len q bl R Hbl HR2) as (t & st & H1 & H2 & H3 & H4 & H5 & E).
+      exists t, st. split; [exact E|]. split; [exact H4|]. split.
+      { destruct (eol_not_ws t H1) as [A B]. unfold tok_plain. rewrite A, B, H2. repeat split; reflexivity. }
+      split; [unfold stq; cbn [inp]; rewrite !app_length; lia|].
+      intros stX HX _. cbn [map map_res] in Htt.
+      assert (Hst : exists st2, unget st t = Ok st2 /\ ungot st2 = Some t).
+      { unfold unget. rewrite H4. eexists. split; reflexivity. }
+      destruct Hst as (st2 & U1 & U2).
+      exists (VWindows ws), st2. split; [|split; [reflexivity|split; [discriminate|intros _; exists t; split; assumption]]].
+      cbn [parse_field]. unfold get_remaining, rem_fuel. rewrite grl_unfold. rewrite HX. cbn [bind]. rewrite H1, U1.
+      cbn [bind rev fst snd map_res]. inversion Htt as [Hty]. rewrite Hty, Hrt. reflexivity.
+    + inversion Hns as [|? ? [Hne1 Hs1] Hns']; subst.
+      assert (Hshape : bl ++ spaced (n1 :: names') ++ R = (bl ++ [32]) ++ n1 ++ (spaced names' ++ R)).
+      { unfold spaced. cbn [flat_map]. rewrite <- ?app_assoc. cbn [app]. rewrite <- ?app_assoc. reflexivity. }
+      rewrite Hshape.
+      pose proof (get0_word_q q (bl ++ [32]) n1 (spaced names' ++ R)
+                   ltac:(rewrite forallb_app, Hbl; reflexivity) (units_safe n1 Hs1) Hne1 (spaced_word_end names' R HR2)) as E.
+      rewrite has_bs_safe in E by exact Hs1.
+      exists (word_tok n1), (stq false (spaced names' ++ R)).
+      split; [exact E|]. split; [reflexivity|]. split.
+      { unfold tok_plain, is_identifier, word_tok. cbn [ttype tvalue]. rewrite safe_word_not_hash by exact Hs1. repeat split; reflexivity. }
+      split; [unfold stq; cbn [inp pend app]; rewrite !app_length; cbn [length]; lia|].
+      intros stX HX HL.
+      assert (Hlen : (length names' <= length (spaced names' ++ R))%nat).
+      { clear. rewrite app_length. induction names' as [|x l IH]; cbn [spaced flat_map length]; [lia|].
+        rewrite app_length. cbn [length]. unfold spaced in IH. lia. }
+      destruct (grl_words names' Hns' false R (S (length (inp stX))) [word_tok n1] HR2) as (te & st & T1 & T2 & E2).
+      { unfold stq in HL. cbn [inp pend app] in HL. lia. }
+      exists (VWindows ws), st. split; [|split; [reflexivity|split; [discriminate|intros _; exists te; split; assumption]]].
+      cbn [parse_field]. unfold get_remaining, rem_fuel. rewrite grl_unfold. rewrite HX. cbn [bind].
+      assert (Heol : is_eol_or_eof (word_tok n1) = false) by reflexivity. rewrite Heol.
+      rewrite E2. cbn [bind rev app fst snd].
+      change (word_tok n1 :: map word_tok names') with (map word_tok (n1 :: names')). rewrite Htt. cbn [bind].
+      rewrite Hrt. reflexivity.
 Qed.
 
 (* ---------- the whole field list ---------- *)
+Definition sep_before (f : tfield) : list Z := match f with FBitmap => [] | _ => [32] end.
+
 Lemma print_fields_cons sty f f2 fs v vs text :
   print_fields sty (f :: f2 :: fs) (v :: vs) = Ok text ->
-  exists a b, print_field sty f v = Ok a /\ print_fields sty (f2 :: fs) vs = Ok b /\ text = a ++ 32 :: b.
+  exists a b, print_field sty f v = Ok a /\ print_fields sty (f2 :: fs) vs = Ok b /\ text = a ++ sep_before f2 ++ b.
 Proof.
   intros H.
   assert (E : print_fields sty (f :: f2 :: fs) (v :: vs)
-              = (do a <- print_field sty f v; do b <- print_fields sty (f2 :: fs) vs; Ok (a ++ 32 :: b)))
-    by (destruct vs; reflexivity).
+              = (do a <- print_field sty f v; do b <- print_fields sty (f2 :: fs) vs; Ok (a ++ sep_before f2 ++ b)))
+    by (destruct vs; destruct f2; reflexivity).
   rewrite E in H. clear E.
   destruct (print_field sty f v) as [a| |]; cbn [bind] in H; try discriminate.
   destruct (print_fields sty (f2 :: fs) vs) as [b| |]; cbn [bind] in H; try discriminate.
   inversion H. eauto.
 Qed.
+
+(* what follows a non-last field is a blank, or (before an empty bitmap) the end of the line *)
+Lemma after_field_word_end sty f2 fs vs b rest : line_end rest -> schema_wf (f2 :: fs) ->
+  print_fields sty (f2 :: fs) vs = Ok b -> word_end (sep_before f2 ++ b ++ rest).
+Proof.
+  intros Hr Hwf Hp. destruct f2; try (cbn [sep_before app]; apply word_end_blank).
+  destruct fs as [|f3 fs]; [|destruct Hwf as [Hx _]; discriminate].
+  cbn [sep_before app]. destruct vs as [|v [|v2 vs]]; [discriminate| |cbn [print_fields] in Hp; destruct (print_field sty FBitmap v); cbn [bind] in Hp; discriminate].
+  cbn [print_fields] in Hp.
+  destruct v as [| | | |ws]; try discriminate. cbn [print_field] in Hp. destruct ws as [|w ws].
+  - inversion Hp; subst b. cbn [app]. apply line_end_word_end, Hr.
+  - cbn [bitmap_to_text] in Hp.
+    destruct (map_res rdtype_to_text (window_types (fst w) 0 (snd w))); cbn [bind] in Hp; try discriminate.
+    destruct (bitmap_to_text ws); cbn [bind] in Hp; try discriminate. inversion Hp; subst b. cbn [app]. apply word_end_blank.
+Qed.
+
+Lemma sep_before_blank f : forallb is_blank (sep_before f) = true.
+Proof. destruct f; reflexivity. Qed.
 
 Lemma fields_ok sty c rest : style_ok sty -> line_end rest ->
   forall fs vs text vs' q bl,
@@ -402,16 +469,16 @@ Proof.
     destruct (expect sty c f v) as [v1| |] eqn:Ee; cbn [bind] in He; try discriminate.
     destruct (expects sty c (f2 :: fs) (v2 :: vs0)) as [vr| |] eqn:Er; cbn [bind] in He; try discriminate.
     inversion He; subst vs'.
-    replace (bl ++ (a ++ 32 :: b) ++ rest) with (bl ++ a ++ (32 :: b ++ rest))
+    replace (bl ++ (a ++ sep_before f2 ++ b) ++ rest) with (bl ++ a ++ (sep_before f2 ++ b ++ rest))
       by (rewrite <- !app_assoc; reflexivity).
-    destruct (field_ok sty c f v a v1 (32 :: b ++ rest) q bl Hsty Hv Pa Ee Hbl
-                (fun _ => word_end_blank _) (fun H => ltac:(congruence)))
+    pose proof (after_field_word_end sty f2 fs (v2 :: vs0) b rest Hrest Hwf Pb) as Hwe.
+    destruct (field_ok sty c f v a v1 (sep_before f2 ++ b ++ rest) q bl Hsty Hv Pa Ee Hbl
+                (fun _ => Hwe) (fun H => ltac:(congruence)))
       as (t1 & s1 & G1 & G2 & G3 & G4 & G5).
     exists t1, s1. split; [exact G1|]. split; [exact G2|]. split; [exact G3|]. split; [exact G4|]. intros stX HX HL.
     destruct (G5 stX HX HL) as (raw & se & P1 & Pc & P2 & _). destruct (P2 Hnr) as (q' & ->).
-    destruct (IH (v2 :: vs0) b vr q' [32] Hwf Hvs0 Pb Er eq_refl) as (t2 & s2 & I1 & I2 & I3 & I4 & I5).
-    cbn [app] in I1, I4.
-    destruct (I5 (stq q' (32 :: b ++ rest)) I1 I4) as (raws2 & se2 & Q1 & Qc & Q2).
+    destruct (IH (v2 :: vs0) b vr q' (sep_before f2) Hwf Hvs0 Pb Er (sep_before_blank f2)) as (t2 & s2 & I1 & I2 & I3 & I4 & I5).
+    destruct (I5 (stq q' (sep_before f2 ++ b ++ rest)) I1 I4) as (raws2 & se2 & Q1 & Qc & Q2).
     exists (raw :: raws2), se2. split; [|split; [|exact Q2]].
     + change (parse_fields c (f :: f2 :: fs) stX)
         with (do vs <- parse_field c f stX; do rs <- parse_fields c (f2 :: fs) (snd vs); Ok (fst vs :: fst rs, snd rs)).
